@@ -19,6 +19,7 @@ import (
 )
 
 func stdValid(t []byte) bool { return stdjson.Valid(t) }
+func stdCompact(dst *bytes.Buffer, src []byte) error { return stdjson.Compact(dst, src) }
 
 // ---------- CODEC (C17): the embedded codec against the model ----------
 
@@ -325,7 +326,11 @@ func streamStd(r *rng, n int, pfx string) {
 					return sm
 				}
 				pa, pb := reflect.New(typ), reflect.New(typ)
-				ue, ve := ijson.Unmarshal(text, pa.Interface()), stdjson.Unmarshal(text, pb.Interface())
+				// the fork always decodes numbers in interface{} targets as Number: the standard library is asked
+				// to do the same (Decoder.UseNumber; the text is a single value, so Decode = Unmarshal)
+				sd := stdjson.NewDecoder(bytes.NewReader(text))
+				sd.UseNumber()
+				ue, ve := ijson.Unmarshal(text, pa.Interface()), sd.Decode(pb.Interface())
 				if (ue == nil) != (ve == nil) {
 					return "diff:error"
 				}
@@ -764,6 +769,9 @@ func streamCli(r *rng, n int, pfx string) {
 		}
 		cfg := cfgFor(r)
 		cfg.plain = true
+		// a document with a repeated member name now and then: what the library makes of it is unspecified, that the
+		// command does what the library does file after file (each result serialised and read again) is not
+		cfg.dups = r.chance(1, 8)
 		docv := genContainer(r, cfg)
 		stdin := spell{r.n(3), r}.text(docv)
 		if r.chance(1, 20) {
@@ -773,6 +781,22 @@ func streamCli(r *rng, n int, pfx string) {
 			stdin = nil
 		}
 		nf := r.n(4)
+		// a CHAIN: every file hands a replaced root (null, a scalar, a fresh container) to the next one, which starts by
+		// looking at the root; and, in a document with a repeated member name, several files address that name
+		chain := r.chance(1, 4)
+		if chain {
+			nf = 2 + r.n(2)
+		}
+		dupName := ""
+		if docv.kind == kObj {
+			seen := map[string]bool{}
+			for _, k := range docv.keys {
+				if seen[k] {
+					dupName = k
+				}
+				seen[k] = true
+			}
+		}
 		var args []string
 		var fields []string
 		var texts [][]byte
@@ -780,7 +804,7 @@ func streamCli(r *rng, n int, pfx string) {
 		cur := docv
 		for f := 0; f < nf; f++ {
 			name := filepath.Join(dir, fmt.Sprintf("p%d_%d.json", i, f))
-			if r.chance(1, 15) {
+			if !chain && r.chance(1, 15) {
 				args = append(args, "-p", name+".absent")
 				fields = append(fields, "MISSING")
 				missing = true
@@ -791,6 +815,30 @@ func streamCli(r *rng, n int, pfx string) {
 			var ops []opSpec
 			for k := r.n(4); k > 0; k-- {
 				ops = append(ops, genOp(r, cur, cfg))
+			}
+			// what one file leaves behind is serialised and read again by the next: operations on the
+			// root itself (replaced by null, by a scalar, by a fresh container; tested) at either end of a file
+			if chain || r.chance(1, 6) {
+				v, _ := parseJV([]byte(r.pick([]string{"null", "null", `{"fresh":true}`, "[]", "1", `{"a":null}`, "[null]"})))
+				rop := opSpec{op: r.pick([]string{"add", "replace", "test", "add"}), path: "", value: v}
+				atEnd := r.chance(1, 2)
+				if chain {
+					atEnd = f%2 == 0
+					if !atEnd {
+						rop.op = r.pick([]string{"test", "add", "add"})
+					} else if rop.op == "test" {
+						rop.op = "replace"
+					}
+				}
+				if atEnd {
+					ops = append(ops, rop)
+				} else {
+					ops = append([]opSpec{rop}, ops...)
+				}
+			}
+			if dupName != "" && r.chance(1, 2) {
+				v, _ := parseJV([]byte("5"))
+				ops = append([]opSpec{{op: r.pick([]string{"remove", "remove", "replace", "test"}), path: "/" + encTok(dupName), value: v}}, ops...)
 			}
 			text := spell{r.n(3), r}.patchText(ops)
 			_ = c
@@ -999,7 +1047,7 @@ func genStructType(r *rng, depth int) reflect.Type {
 		case k == 2:
 			t = reflect.TypeOf(true)
 		case k == 3:
-			t = reflect.TypeOf(float64(0))
+			t = []reflect.Type{reflect.TypeOf(float64(0)), reflect.TypeOf(float32(0)), reflect.TypeOf(float32(0))}[r.n(3)]
 		case k == 4:
 			t = reflect.TypeOf((*int)(nil))
 		case k == 5:
@@ -1009,7 +1057,7 @@ func genStructType(r *rng, depth int) reflect.Type {
 		case k == 7:
 			t = reflect.TypeOf((*interface{})(nil)).Elem()
 		case k == 8:
-			t = reflect.TypeOf(uint8(0))
+			t = []reflect.Type{reflect.TypeOf(uint8(0)), reflect.TypeOf(uint16(0)), reflect.TypeOf(uint32(0)), reflect.TypeOf(uint64(0)), reflect.TypeOf(uint(0))}[r.n(5)]
 		case k == 9:
 			t = reflect.TypeOf([]byte(nil))
 		case depth > 0 && k == 10 && r.chance(1, 2):
@@ -1024,7 +1072,8 @@ func genStructType(r *rng, depth int) reflect.Type {
 		case depth > 0:
 			t = reflect.PtrTo(genStructType(r, depth-1))
 		default:
-			t = reflect.TypeOf(int64(0))
+			t = []reflect.Type{reflect.TypeOf(int64(0)), reflect.TypeOf(int8(0)), reflect.TypeOf(int16(0)), reflect.TypeOf(int32(0)),
+				reflect.TypeOf([]float32(nil)), reflect.TypeOf(map[string]float32(nil)), reflect.TypeOf((*float32)(nil)), reflect.TypeOf([]int8(nil))}[r.n(8)]
 		}
 		f := reflect.StructField{Name: name, Type: t}
 		tag := r.pick(tagNames)
@@ -1063,10 +1112,12 @@ func safeStructOf(fs []reflect.StructField) (t reflect.Type) {
 
 func fillValue(r *rng, v reflect.Value, depth int) {
 	switch v.Kind() {
-	case reflect.Int, reflect.Int64:
+	case reflect.Int, reflect.Int8, reflect.Int16, reflect.Int32, reflect.Int64:
 		v.SetInt(int64(r.n(5)) - 2)
-	case reflect.Uint8:
+	case reflect.Uint, reflect.Uint8, reflect.Uint16, reflect.Uint32, reflect.Uint64:
 		v.SetUint(uint64(r.n(3)))
+	case reflect.Float32:
+		v.SetFloat(float64([]float32{0, 1, -0.5, 3.4028235e38, 1e-7, 16777216, 0.1, 1.0000001}[r.n(8)]))
 	case reflect.String:
 		if r.chance(2, 3) {
 			v.SetString(r.pick(strPool))
@@ -1125,6 +1176,17 @@ func fillValue(r *rng, v reflect.Value, depth int) {
 	}
 }
 
+var numBoundaryPool = []string{"127", "128", "-128", "-129", "255", "256", "32767", "32768", "-32769", "65535", "65536",
+	"2147483647", "2147483648", "-2147483649", "4294967295", "4294967296", "9223372036854775807", "9223372036854775808",
+	"-9223372036854775808", "-9223372036854775809", "18446744073709551615", "18446744073709551616", "-0", "-1", "1.0", "1.5",
+	"1e2", "1E2", "1e-2", "0.1", "1e400", "-1e400", "3.4028235e38", "3.4028235e+38", "3.4028236e38", "-3.4028235e+38",
+	"340282346638528859811704183484516925440", "340282356779733661637539395458142568447", "340282356779733661637539395458142568448",
+	"3.4028235677973366e38", "3.4028234663852886e38", "1.00000005960464477539062500000000000000001", "1.000000059604644775390625",
+	"1.00000017881393432617187500000000000000001", "16777217", "16777216.5", "0.1000000014901161193847656", "1e-46",
+	"1.401298464324817e-45", "7e-46", "7.006492321624085e-46", "7.006492321624086e-46", "1.7976931348623157e308", "1.7976931348623159e308",
+	"4.9e-324", "2e-324", "123456789012345678901234567890", "0.30000000000000004", "1e21", "1e20", "100000000000000000000",
+	"-1e-7", "0e0", "0E+0", "1e+00", "2.5", "-2.5", "1e1", "12e-1", "0.5e1"}
+
 // the same JSON text with some member names in another case, a duplicate or an unknown member
 func recase(r *rng, t []byte) []byte {
 	v, err := parseJV(t)
@@ -1149,6 +1211,12 @@ func recase(r *rng, t []byte) []byte {
 			if r.chance(1, 4) {
 				x.keys = append(x.keys, r.pick([]string{"unknown", "A", "name", "K", "k9", "\u017f"}))
 				x.vals = append(x.vals, jnum("7"))
+			}
+		case kNum:
+			// number literals at the boundaries of every numeric kind (range checks, rounding to float32 and
+			// float64, exponents, precision beyond any machine type): both decoders must agree on acceptance AND value
+			if r.chance(1, 3) {
+				x.lit = r.pick(numBoundaryPool)
 			}
 		case kArr:
 			for _, e := range x.arr {
